@@ -14,6 +14,7 @@ import (
 	"mime"
 	"strconv"
 	"strings"
+	"sync/atomic"
 	"time"
 
 	"github.com/la5nta/wl2k-go/transport"
@@ -448,6 +449,11 @@ func (s *Session) writeCompressed(rw io.ReadWriter, p *Proposal) (err error) {
 
 	buffer := bytes.NewBuffer(p.compressedData[p.offset:])
 
+	// Number of bytes not yet handed to the connection. The buffer itself belongs to this
+	// goroutine; the status reporter only ever looks at this counter.
+	var remaining atomic.Int64
+	remaining.Store(int64(buffer.Len()))
+
 	// Update Status of message transfer every 250ms
 	statusTicker := time.NewTicker(250 * time.Millisecond)
 	statusDone := make(chan struct{})
@@ -455,7 +461,7 @@ func (s *Session) writeCompressed(rw io.ReadWriter, p *Proposal) (err error) {
 		for {
 			select {
 			case <-statusTicker.C:
-				if s.statusUpdater == nil || buffer == nil {
+				if s.statusUpdater == nil {
 					continue
 				}
 
@@ -465,7 +471,7 @@ func (s *Session) writeCompressed(rw io.ReadWriter, p *Proposal) (err error) {
 					txBufLen = b.TxBufferLen()
 				}
 
-				transferred := p.compressedSize - buffer.Len() - txBufLen
+				transferred := p.compressedSize - int(remaining.Load()) - txBufLen
 				if transferred < 0 {
 					transferred = 0
 				}
@@ -481,7 +487,7 @@ func (s *Session) writeCompressed(rw io.ReadWriter, p *Proposal) (err error) {
 				if s.statusUpdater != nil {
 					s.statusUpdater.UpdateStatus(Status{
 						Sending:          p,
-						BytesTransferred: p.compressedSize - buffer.Len(),
+						BytesTransferred: p.compressedSize - int(remaining.Load()),
 						BytesTotal:       p.compressedSize,
 						Done:             true,
 					})
@@ -510,6 +516,7 @@ func (s *Session) writeCompressed(rw io.ReadWriter, p *Proposal) (err error) {
 			}
 			checksum += int64(c)
 		}
+		remaining.Store(int64(buffer.Len()))
 
 		if err = writer.Flush(); err != nil {
 			return err
@@ -597,6 +604,10 @@ func (s *Session) readCompressed(rw io.ReadWriter, p *Proposal) (err error) {
 		s.log.Println("GZIP_EXPERIMENT:", "Receiving gzip compressed message.")
 	}
 
+	// Number of bytes received so far. The buffer itself belongs to this goroutine; the
+	// status reporter only ever looks at this counter.
+	var received atomic.Int64
+
 	statusUpdate := make(chan struct{})
 	go func() {
 		for {
@@ -604,7 +615,7 @@ func (s *Session) readCompressed(rw io.ReadWriter, p *Proposal) (err error) {
 			if s.statusUpdater != nil {
 				s.statusUpdater.UpdateStatus(Status{
 					Receiving:        p,
-					BytesTransferred: buf.Len(),
+					BytesTransferred: int(received.Load()),
 					BytesTotal:       p.compressedSize,
 					Done:             !ok,
 				})
@@ -642,6 +653,7 @@ func (s *Session) readCompressed(rw io.ReadWriter, p *Proposal) (err error) {
 					return
 				}
 				buf.WriteByte(c)
+				received.Add(1)
 				ourChecksum = (ourChecksum + int(c)) % 256
 				if i%10 == 0 {
 					updateStatus()
